@@ -16,7 +16,7 @@ type Gen struct {
 	R  *hx.Rand
 	NS string // the stream's content name space
 	n  int
-	// NoQuirks suppresses the shapes that hit known findings (namespaced id/from)
+	// NoQuirks suppresses the shapes that hit the known finding (namespaced id)
 	NoQuirks bool
 	// NoBig suppresses payloads above the encoder's buffer
 	NoBig bool
@@ -75,6 +75,9 @@ func (g *Gen) extraAttrs(plainXmlns bool, space string) []MAttr {
 	}
 	if g.R.Chance(1, 6) {
 		as = append(as, MAttr{MName{"urn:a", g.pick("k", "n")}, "nv"})
+	}
+	if !g.NoQuirks && g.R.Chance(1, 30) {
+		as = append(as, MAttr{MName{"urn:a", "xmlns"}, "v"}) // not a name space declaration
 	}
 	if plainXmlns && g.R.Chance(1, 4) {
 		v := space
@@ -167,8 +170,9 @@ func (g *Gen) topAttrs(plainXmlns bool, space string) []MAttr {
 		as = append(as, MAttr{MName{"", "from"}, ""})
 	}
 	as = append(as, g.extraAttrs(plainXmlns, space)...)
-	if !g.NoQuirks && g.R.Chance(1, 40) {
-		as = append(as, MAttr{MName{"urn:a", g.pick("id", "from")}, g.pick("", "nsv")})
+	if !g.NoQuirks && g.R.Chance(1, 25) {
+		// attributes that only share the local name of id / from / xmlns
+		as = append(as, MAttr{MName{"urn:a", g.pick("id", "from", "xmlns", "id")}, g.pick("", "nsv")})
 	}
 	// shuffle everything but the marker a little
 	if len(as) > 2 && g.R.Bool() {
